@@ -63,7 +63,20 @@ def coq_files():
     return out
 
 
+def write_coqproject():
+    """_CoqProject lists every .v under Model/ Spec/ Proofs/ Props/ (Extract/*.v are compiled
+       separately, in the directory where the extracted OCaml must land)"""
+    files = []
+    for d in ("Model", "Spec", "Proofs", "Props"):
+        files += sorted(os.path.relpath(f, COQ) for f in glob.glob(os.path.join(COQ, d, "*.v")))
+    txt = "-Q . SV\n" + "\n".join(files) + "\n"
+    cp = os.path.join(COQ, "_CoqProject")
+    if not os.path.exists(cp) or open(cp).read() != txt:
+        open(cp, "w").write(txt)
+
+
 def ensure_makefile():
+    write_coqproject()
     mk = os.path.join(COQ, "Makefile")
     cp = os.path.join(COQ, "_CoqProject")
     if not os.path.exists(mk) or os.path.getmtime(mk) < os.path.getmtime(cp):
@@ -136,6 +149,9 @@ def build_harness():
     h = os.path.join(VERIF, "harness")
     with Lock("harness"):
         shutil.copy(os.path.join(REPO, "go.sum"), os.path.join(h, "go.sum"))
+        gm = open(os.path.join(h, "go.mod.tmpl")).read().replace("@REPO@", REPO)
+        if not os.path.exists(os.path.join(h, "go.mod")) or open(os.path.join(h, "go.mod")).read() != gm:
+            open(os.path.join(h, "go.mod"), "w").write(gm)
         rc, out = sh(["timeout", "900", "go", "build", "-tags", "verif", "-o", os.path.join(BUILD, "harness.new"), "."],
                      cwd=h, env=GOENV)
         if rc == 0:
@@ -186,11 +202,23 @@ def write_evidence(pid, ev):
     os.replace(tmp, os.path.join(VERIF, "evidence", pid + ".json"))
 
 
+class _Props:
+    pass
+
+
+def load_props():
+    """lib/props.d/<ID>.json: per-property settings of this driver; lib/props.d/_common.json: shared trusted base"""
+    pr = _Props()
+    pr.PROPS = {}
+    d = os.path.join(VERIF, "lib", "props.d")
+    pr.TRUSTED_COMMON = json.load(open(os.path.join(d, "_common.json")))["trusted_common"]
+    for f in sorted(glob.glob(os.path.join(d, "C*.json"))):
+        pr.PROPS[os.path.basename(f)[:-5]] = json.load(open(f))
+    return pr
+
+
 def main(argv):
-    import importlib.util
-    spec = importlib.util.spec_from_file_location("props", os.path.join(VERIF, "lib", "props.py"))
-    props = importlib.util.module_from_spec(spec)
-    spec.loader.exec_module(props)
+    props = load_props()
 
     pid = argv[2]
     tier = os.environ.get("VERIF_TIER", "quick")
